@@ -496,7 +496,7 @@ func RunDriver(o DriverOpts) int {
 		rp := filepath.Join(outDir, "replays", fmt.Sprintf("%s-%016x.json", p.ID, HashStr(s)))
 		rb, _ := json.MarshalIndent(map[string]any{
 			"property": p.ID, "signature": s, "stage": v.Stage, "idx": v.Idx, "seed": o.Seed, "tier": o.Tier.String(),
-			"count": v.Count, "detail": v.Detail, "prelude": v.Prelude,
+			"count": v.Count, "detail": v.Detail, "prelude": v.Prelude, "goarch": runtime.GOARCH,
 			"replay_cmd": fmt.Sprintf("./check replay %s", rp),
 		}, "", " ")
 		_ = os.WriteFile(rp, rb, 0o644)
@@ -555,6 +555,16 @@ func RunDriver(o DriverOpts) int {
 	}
 	if len(inconclusive) > 0 {
 		cov["inconclusive"] = inconclusive
+	}
+	cov["goarch"] = runtime.GOARCH
+	if f := os.Getenv("VERIF_EXTRA_PASSES"); f != "" {
+		// passes the check script ran beside this one (the 32-bit build): their own counts, as they reported them
+		if b, err := os.ReadFile(f); err == nil {
+			var x any
+			if json.Unmarshal(b, &x) == nil {
+				cov["extra_passes"] = x
+			}
+		}
 	}
 	ev := map[string]any{
 		"property_id": p.ID, "tier": o.Tier.String(), "seed": int64(o.Seed), "level": "exploration",
